@@ -234,6 +234,19 @@ def reference(resources, defs=None):
 PROBE = {MAIN: "k $a\n"}, {MAIN: "k $b\n"}, {MAIN: "k ${c}\n"}
 
 
+def _other_values(resources):
+    out = {}
+    for u, text in resources.items():
+        lines = []
+        for l in text.split("\n"):
+            w = l.split(None, 2)
+            if len(w) >= 2 and w[0] == "%define":
+                l = l.rstrip() + ("Z" if len(w) == 3 else " Z")
+            lines.append(l)
+        out[u] = "\n".join(lines)
+    return out
+
+
 def check(resources):
     """-> (reference outcome, [(sig, detail)])"""
     ref_table = {}
@@ -242,6 +255,8 @@ def check(resources):
     # one loader object serves the whole history: load, the same load again, then the probes
     ZConfig, MemLoader, sch = _zc()
     shared = MemLoader(sch)
+    # ... which has served another text before: the same lines with every defined value changed
+    load(_other_values(resources), loader=shared)
     got1 = load(resources, loader=shared)
     import warnings
     with warnings.catch_warnings():
